@@ -137,7 +137,7 @@ struct nearest_neighbour {
             for (std::size_t i = 0; i < contravariant_output_t::dimensions; ++i)
             {
                 nc[i] = static_cast<typename contravariant_output_t::scalar_t>(
-                    std::lrintf(c[i])
+                    std::lrint(c[i])
                 );
             }
 
